@@ -11,6 +11,11 @@ def refix(text, ours):
     t = re.sub(r"isinstance\(([^()]+?), ACloseable\)", r'hasattr(\1, "aclose")', t)
     if "isawaitable" in ours and re.search(r"^from inspect import", ours, re.M):
         t = re.sub(r"^from inspect import (.*)$", lambda m: m.group(0) if "isawaitable" in m.group(1) else f"from inspect import {m.group(1)}, isawaitable", t, flags=re.M)
+    if "(self, /, " in ours:
+        # repo fixes 82ebe23 / 9f1a290: the instance (and callback) parameters became positional-only
+        t = re.sub(r"def __call__\(self, \*args", "def __call__(self, /, *args", t)
+        t = re.sub(r"def cache_discard\(self, \*args", "def cache_discard(self, /, *args", t)
+        t = re.sub(r"def callback\(self, callback: C, \*args", "def callback(self, callback: C, /, *args", t)
     if "return await self._peer.__anext__()" in ours:
         # repo fix 7a2b048: TeePeer.__anext__ became a coroutine function
         t = t.replace("def __anext__(self) -> Awaitable[T]:", "async def __anext__(self) -> T:")
